@@ -48,7 +48,7 @@ class Failure:
     def to_json(self):
         return dict(label=self.label, kind=self.kind, inputs=self.inputs,
                     choices=self.choices, detail=self.detail, smt2=self.smt2,
-                    model=self.model)
+                    model=self.model, prelude_choices=getattr(self, "prelude_choices", None))
 
 
 def _val_to_py(v):
@@ -486,6 +486,7 @@ class Explorer:
             self.choice_log = []
             sym.set_run(run)
             self.solver.push()
+            n_fail_before = len(self.failures)
             try:
                 self.harness(env)
                 self.paths += 1
@@ -513,6 +514,11 @@ class Explorer:
                 pass
             self.solver.pop()
             sym.set_run(None)
+            # the enumerated choices of the path explored just before this one in the same process: the replay uses them as a
+            # prelude when the counter-model does not reproduce in a fresh process (state kept between runs)
+            for f in self.failures[n_fail_before:]:
+                f.prelude_choices = getattr(self, "_prev_choices", None)
+            self._prev_choices = [d[0] for d in run.decisions if len(d) > 2 and d[2] == 'c']
             if stop_at_first_failure and any(f.label not in self.known_labels for f in self.failures):
                 break
         return self
